@@ -143,7 +143,10 @@ def session_monitor(ctx, gc, rng, n_sessions):
                                 try:
                                     got = gc.GameState.from_dict(doc["observation"]["state"])
                                     got2 = gc.GameState.from_json(json.dumps(doc["observation"]["state"]))
-                                    if held is not None and (got != held or got2 != held):
+                                    import worldlib as _WL
+                                    # compared field by field (worldlib.impl_view), not with the implementation's GameState.__eq__
+                                    if held is not None and (_WL.impl_view(got) != _WL.impl_view(held) or _WL.impl_view(got2) != _WL.impl_view(held)
+                                                             or got != held or got2 != held):
                                         problem = "the view in the response does not decode to the view the coordinator holds"
                                 except Exception as e:
                                     problem = f"the view in the response cannot be decoded: {type(e).__name__}: {e}"
